@@ -39,7 +39,7 @@ def run(ctx):
     import r_consts
     import r_globals
     for nm, fn in (("Fs", r_flags.rule_F_sinks), ("Fh", r_flags.rule_F_hash_many), ("Fl", r_flags.rule_F_literals), ("F5", r_flags.rule_F5),
-                   ("F6", r_flags.rule_F6), ("K3M1", r_consts.rule_K3_M1), ("W1", r_globals.rule_W1), ("G3", r_globals.rule_G3), ("ZP", r_state.rule_ZP)):
+                   ("F6", r_flags.rule_F6), ("K3M1", r_consts.rule_K3_M1), ("W1", r_globals.rule_W1), ("G3", r_globals.rule_G3), ("ZP", r_state.rule_ZP), ("TM", r_state.rule_TM)):
         ctx.run_rule(nm, fn, cfgs)
     import extract
     std = [c for c in cfgs if c not in extract.NO_STD]
